@@ -182,6 +182,25 @@ void h_probe(void) {
     V_WITNESS("h_probe end");
 }
 
+/* C19: existence of a cap, independent of its name or value: with the observation counter at its
+ * maximum (a state standing for "arbitrarily many observations recorded") one more distinct
+ * Probe/Train must not be retained. */
+void h_probe_cap(void) {
+    common_setup(0);
+    g_class = CL_NONE;
+    V_ASSUME(in.frame[F_TOS] == 0 && (in.frame[F_OP] == opcode_probe || in.frame[F_OP] == opcode_train));
+    V_ASSUME(mac6_eq(in.frame + F_RDST, g_cfgA.mac));
+    for (unsigned i = 0; i < K; i++)
+        if (i < in.st.n) V_ASSUME(!(mac6_eq(in.st.node[i].es, in.frame + F_ESRC) && mac6_eq(in.st.node[i].rs, in.frame + F_RSRC)));
+    ST->see_list_count = 0xFFFFFFFFu;
+    long live0 = g_live_blocks;
+    parseFrame(RX, &g_cfgA);
+    struct snap sn; snapshot_list(ST, &sn);
+    V_ASSERT(sn.n == in.st.n && !sn.overflow, "C19: the observation list stops growing at a fixed cap (memory retained does not grow with the length of the history)");
+    V_ASSERT(g_live_blocks == live0, "C19: an observation beyond the cap is not retained");
+    V_WITNESS("h_probe_cap end");
+}
+
 /* ============================================================ Reset class (C05, C07, C09, C19) */
 void h_reset(void) {
     common_setup(0);
